@@ -45,7 +45,11 @@ func main() {
 	only := flag.String("only", "", "report only this obligation key")
 	ruleOnly := flag.String("rule", "", "run a single rule (debugging)")
 	list := flag.Bool("list", false, "list all obligations")
+	multi := flag.String("multi", "", "checker validation only: comma-separated properties (or 'all') run against ONE load of the repository; prints `RESULT <id> exit=<n>` per property; no evidence is written")
 	flag.Parse()
+	if *multi != "" {
+		os.Exit(runMulti(*repo, *multi, *tier, *knownPath))
+	}
 
 	abs, _ := filepath.Abs(*repo)
 	repoDir = abs
@@ -132,4 +136,65 @@ func runRule(c *Ctx, id string, f ruleFn) {
 		}
 	}()
 	f(c)
+}
+
+// runMulti is used by selftest/ only: one load, many properties. Registered checks never use it.
+func runMulti(repo, list, tier, knownPath string) int {
+	abs, _ := filepath.Abs(repo)
+	repoDir = abs
+	var ids []string
+	if list == "all" {
+		for id := range props {
+			ids = append(ids, id)
+		}
+	} else {
+		ids = strings.Split(list, ",")
+	}
+	sort.Strings(ids)
+	prog, err := loadProg(abs)
+	if prog == nil {
+		prog = &Prog{}
+	}
+	known, _ := loadKnown(knownPath)
+	worst := 0
+	for _, id := range ids {
+		spec, ok := props[id]
+		if !ok {
+			fmt.Printf("RESULT %s exit=2\n", id)
+			continue
+		}
+		rep := newReport(prog)
+		if err != nil {
+			rep.cur = "LOAD"
+			rep.add("yae", "load", 0, Violated, false, err.Error())
+		} else {
+			ctx := &Ctx{Prog: prog, R: rep, Thorough: tier == "thorough"}
+			ruleList := append([]string{}, spec.rules...)
+			if ctx.Thorough {
+				have := map[string]bool{}
+				for _, r := range ruleList {
+					have[r] = true
+				}
+				for _, r := range thoroughExtra[id] {
+					if !have[r] {
+						ruleList = append(ruleList, r)
+					}
+				}
+			}
+			for _, rid := range ruleList {
+				if f := ruleTable[rid]; f != nil {
+					runRule(ctx, rid, f)
+				} else {
+					rep.cur = "LOAD"
+					rep.add("checker", "rule "+rid, 0, Undecided, false, "rule not implemented")
+				}
+			}
+		}
+		code := rep.finish(runMeta{Property: id, Tier: tier, Explanation: spec.explanation, NotCovered: spec.notCovered, Assumptions: spec.assumptions, Quiet: true}, known)
+		fmt.Printf("RESULT %s exit=%d\n", id, code)
+		if code > worst {
+			worst = code
+		}
+	}
+	return worst
 }
